@@ -102,6 +102,9 @@ def gen(chk):
             t += b"#" + rng.choice([b"frag", b"x?y", b""])
         if t == b"":
             t = b"/"
+        if rng.random() < 0.03:
+            k = rng.randrange(len(t) + 1)
+            t = t[:k] + b"\x00" + t[k:]            # a NUL byte is a legal target character for the parser
         m = rng.choice(METHODS)
         rs = ",".join("%s|%s|%d|-" % (hexs(mm), hexs(p), h) for mm, p, h in regs)
         cases.append("route %s %s %s" % (rs, hexs(m), hexs(t)))
@@ -110,7 +113,7 @@ def gen(chk):
     for _ in range(n // 10):
         s = bytes(rng.choice(b"/ab:") for _ in range(rng.randint(0, 9)))
         cases.append("splitstr %s 47" % hexs(s)); meta.append(None)
-        u = bytes(rng.choice(b"/a?#b") for _ in range(rng.randint(0, 9)))
+        u = bytes(rng.choice(b"/a?#b\x00") for _ in range(rng.randint(0, 9)))
         cases.append("uripath %s" % hexs(u)); meta.append(None)
     return cases, meta
 
@@ -163,7 +166,7 @@ def run(chk):
     chk.cov["input_distribution"] = dist
     chk.cov["samples"] = [pairs[j][0] + " => " + pairs[j][2] for j in (0, len(pairs) // 3, len(pairs) // 2) if j < len(pairs)]
     chk.cov["traces_validated_against_impl"] = len(pairs)
-    chk.assumptions += ["patterns are well-formed: no NUL, every ':' directly follows a '/'", "targets contain no NUL byte"]
+    chk.assumptions += ["patterns are well-formed: no NUL, every ':' directly follows a '/'"]
 
 
 def replay(body):
